@@ -404,7 +404,8 @@ int fiber_sleep(uint32_t seconds, uint32_t useconds) {
     return FIBER_SUCCESS;
   }
 
-  const uint64_t sleep_ms = seconds * 1000 + useconds / 1000 + 1;  // ms
+  const uint64_t sleep_ms =
+      (uint64_t)seconds * 1000 + useconds / 1000 + 1;  // ms
   waiter_el_t wake_info = {};
 
   fiber_spinlock_lock(&sleep_spinlock);
